@@ -38,6 +38,9 @@ def make_program(ch: Choices, tier: str) -> Program:
             tasks[-1] = {"b": "fail_continue", "out": {}}
         if ch.flip("c11.poll", 0.2):
             tasks[0] = {"b": "poller", "n": 1, "out": {}}
+        if kind == "mutex" and i == 0 and ch.flip("c11.suspend", 0.3):
+            # the holder leaves RUNNING without leaving its critical section: it suspends until a signal arrives
+            tasks[0] = {"b": "suspender", "out": {}}
         s: dict[str, Any] = {"ref": r, "deps": ["R"] if root else [], "ctx": {}, "tasks": tasks}
         if kind == "mutex":
             s["mutex"] = "m"
@@ -49,9 +52,40 @@ def make_program(ch: Choices, tier: str) -> Program:
     return Program({"name": "c11-" + kind, "wf_ctx": {}, "stages": stages, "kind": kind, "siblings": sib})
 
 
+def signaller(ch: Choices, info: dict[str, Any]) -> Any:
+    """Resumes a suspended mutex holder after a seeded gap (long enough, sometimes, for a waiting sibling's re-queued
+    StartStage to be handled while the holder is SUSPENDED)."""
+    gap = ch.choice("c11.siggap", [0.05, 2.0, 16.0, 31.0, 50.0])
+
+    def mk(world: Any) -> Any:
+        def body(wk: Any) -> None:
+            from stabilize.hitl import send_signal
+
+            for _ in range(3000):
+                if world.sched.stopping:
+                    return
+                rows = world.hquery("SELECT id, execution_id, status FROM stage_executions WHERE ref_id = 'S0'")
+                if rows and rows[0]["status"] == "SUSPENDED":
+                    break
+                if rows and rows[0]["status"] in ("SUCCEEDED", "FAILED_CONTINUE", "TERMINAL", "CANCELED", "SKIPPED"):
+                    return
+                world.sched.sleep(0.01)
+            else:
+                return
+            world.sched.sleep(gap)
+            with world.as_client("client-signal"):
+                send_signal(world.queue, rows[0]["execution_id"], rows[0]["id"], "go", {"tag": "resume"}, persistent=True)
+            world.fault("holder_resumed_by_signal")
+
+        return body
+
+    return mk
+
+
 def extra_workers(ch: Choices, info: dict[str, Any]) -> list[Any]:
+    out: list[Any] = [signaller(ch, info)]      # harmless when no stage suspends
     if not ch.flip("c11.sweeper", 0.6):
-        return []
+        return out
     info["sweeper"] = True
 
     def mk(world: Any) -> Any:
@@ -73,7 +107,7 @@ def extra_workers(ch: Choices, info: dict[str, Any]) -> list[Any]:
 
         return body
 
-    return [mk]
+    return out + [mk]
 
 
 def judge(prog: Program, run: dict[str, Any], info: dict[str, Any]) -> list[dict[str, Any]]:
